@@ -99,6 +99,9 @@ def cases(tier, seed):
                 ops.append("rb.get")
             elif r < 0.94:
                 ops.append("rb.clear")
+            elif r < 0.96:
+                # the same structure set up again in the middle of its life (other capacity, stale indices and mode)
+                ops.append("rb.init %s %d" % (ty, rnd.choice([1, 2, 3, 5, 6, 8, 13])))
             else:
                 ops.append("rb.ovr %d" % rnd.randint(0, 1))
         cs.append(Case("rnd-%d" % h, ops, ("random", ty)))
